@@ -193,7 +193,7 @@ impl Prop for BitsProp {
         let v = BitsVal::build(c.kind, c.bvhow, c.wrap, &raw);
         let n = m.n();
         ctx.label(&format!("kind={}", c.kind.name()));
-        ctx.label(&format!("bv={:?}", c.bvhow));
+        ctx.label(&format!("bv={}", crate::util::variant_name(&c.bvhow)));
         ctx.label(match n { 0 => "n=0", 1..=64 => "n=1..64", 65..=512 => "n=65..512", 513..=4096 => "n=513..4096", 4097..=32768 => "n=4097..32768", 32769..=300000 => "n=32769..300000", _ => "n>300000" });
         if n > 0 && m.ones.len() == n { ctx.label("all-ones"); }
         if n > 0 && m.zeros.len() == n { ctx.label("all-zeros"); }
